@@ -241,7 +241,11 @@ def build_sec_body(pub_body, alg, secret, protect=None):
     return bytes(out)
 
 
-def build_gnu_dummy_body(pub_body):
+def build_gnu_dummy_body(pub_body, card_serial=None):
+    """GnuPG's S2K extension 101: mode 1 = secret part not present; mode 2 = the key lives on a smartcard (a length octet and
+    the card's serial number follow)"""
+    if card_serial is not None:
+        return pub_body + bytes([254, 0, 101]) + b'\x00GNU' + b'\x02' + bytes([len(card_serial)]) + bytes(card_serial)
     return pub_body + bytes([254, 0, 101]) + b'\x00GNU' + b'\x01'
 
 
